@@ -19,7 +19,7 @@ def encode(prog):
     lens = []
     for ins in prog:
         k = ins["k"]
-        lens.append({"RT": 4, "PU": 2, "DEC": 1, "JNZ": 2, "JMP": 2, "ST": 7, "ST4": 10, "LD": 5, "PATCH": 7}[k])
+        lens.append({"RT": 4, "PU": 2, "DEC": 1, "JNZ": 2, "JMP": 2, "LOOP": 2, "ST": 7, "ST4": 10, "LD": 5, "PATCH": 7}[k])
     offs = [0]
     for l in lens:
         offs.append(offs[-1] + l)
@@ -32,11 +32,11 @@ def encode(prog):
             out += bytes([0x6a, ins["i"]])
         elif k == "DEC":
             out += b"\x49"
-        elif k in ("JNZ", "JMP"):
+        elif k in ("JNZ", "JMP", "LOOP"):
             rel = offs[ins["t"]] - offs[n + 1]
             if not -128 <= rel <= 127:
                 raise ValueError("branch out of rel8 range")
-            out += bytes([0x75 if k == "JNZ" else 0xeb, rel & 0xff])
+            out += bytes([{"JNZ": 0x75, "JMP": 0xeb, "LOOP": 0xe2}[k], rel & 0xff])
         elif k == "ST":
             out += b"\xc6\x05" + ins["a"].to_bytes(4, "little") + bytes([ins["v"]])
         elif k == "ST4":
@@ -85,6 +85,16 @@ class Player(object):
             self.faulted = True
             return False
         j.add_exception_handler(EXCEPT_ACCESS_VIOL, on_fault)
+        from miasm.jitter.csts import EXCEPT_BREAKPOINT_MEMORY
+        self.membp = False
+
+        def on_membp(jit):
+            self.membp = True
+            # the handler protocol of the repository's own example: clear the flag and the recorded accesses
+            jit.vm.set_exception(jit.vm.get_exception() & ~EXCEPT_BREAKPOINT_MEMORY)
+            jit.vm.reset_memory_access()
+            return False
+        j.add_exception_handler(EXCEPT_BREAKPOINT_MEMORY, on_membp)
         self.end = CODE + self.offs[-1]
 
         def at_end(jit):
@@ -127,6 +137,8 @@ class Player(object):
             stop = "crashed"
         elif self.faulted or (exc & VIOL):
             stop = "fault"
+        elif self.membp:
+            stop = "membp"
         elif pc == self.end:
             stop = "end"
         elif slot in self.bps and self.bps[slot] and self.hits and self.hits[-1] == slot:
@@ -156,13 +168,14 @@ class Player(object):
             k = c["c"]
             if k in ("run", "cont"):
                 self.faulted = False
+                self.membp = False
                 crashed = ""
                 try:
                     if k == "run":
                         self.clear_faults()
                         j.init_run(CODE + self.offs[c["s"]])
                         j.continue_run()
-                    elif obs and obs[-1]["stop"] in ("bp", "fault"):
+                    elif obs and obs[-1]["stop"] in ("bp", "fault", "membp"):
                         j.continue_run()
                     # continuing a run that reached the end is a no-op (the reference does the same)
                 except Exception as ex:
@@ -182,6 +195,8 @@ class Player(object):
                 self.cbs = getattr(self, "cbs", {})
                 self.cbs[slot] = cb
                 j.add_breakpoint(CODE + self.offs[slot], cb)
+            elif k == "addmbp":
+                j.vm.add_memory_breakpoint(c["a"], c["n"], (1 if c["r"] else 0) | (2 if c["w"] else 0))
             elif k == "rmbp":
                 j.remove_breakpoints_by_address(CODE + self.offs[c["s"]])
                 self.bps.pop(c["s"], None)
